@@ -263,6 +263,53 @@ impl Drop for GateTxn<'_> {
     }
 }
 
+// ------------------------------------------------------------------ same-server follow-ups
+
+/// One protocol operation for the request thread's own driver (op, client, argument, body).
+type Cmd = (String, Uuid, Uuid, Vec<u8>);
+type Reply = (Out, Option<crate::drivers::HttpInfo>);
+
+/// The follow-up requests of a round go through the SAME server object (library `Server` or web
+/// application) that served the round's request: that object lives on the request thread, which
+/// keeps serving commands after its request is over.  Whatever the server remembers in process
+/// about the failed request is then in force for the follow-ups, as it is for the next client of
+/// a real server process.
+struct ProxyDriver {
+    tx: std::sync::mpsc::Sender<Cmd>,
+    rx: std::sync::mpsc::Receiver<Reply>,
+    lvl: &'static str,
+}
+
+impl ProxyDriver {
+    fn call(&mut self, op: &str, c: Uuid, a: Uuid, body: Vec<u8>) -> Reply {
+        if self.tx.send((op.to_string(), c, a, body)).is_err() {
+            return (Out::Error { msg: "the request thread's server is gone".into() }, None);
+        }
+        match self.rx.recv_timeout(Duration::from_secs(20)) {
+            Ok(r) => r,
+            Err(_) => (Out::Error { msg: "timeout".into() }, None),
+        }
+    }
+}
+
+impl crate::drivers::Driver for ProxyDriver {
+    fn add_version(&mut self, c: Uuid, p: Uuid, body: Vec<u8>) -> Reply {
+        self.call("AddVersion", c, p, body)
+    }
+    fn get_child_version(&mut self, c: Uuid, p: Uuid) -> Reply {
+        self.call("GetChildVersion", c, p, vec![])
+    }
+    fn add_snapshot(&mut self, c: Uuid, v: Uuid, body: Vec<u8>) -> Reply {
+        self.call("AddSnapshot", c, v, body)
+    }
+    fn get_snapshot(&mut self, c: Uuid) -> Reply {
+        self.call("GetSnapshot", c, Uuid::nil(), vec![])
+    }
+    fn level(&self) -> &'static str {
+        self.lvl
+    }
+}
+
 // ------------------------------------------------------------------ one round
 
 pub struct RoundSpec {
@@ -281,6 +328,10 @@ pub struct RoundSpec {
     pub follow: Vec<Value>,
     /// trait-level faults stay: every later call of the same name by the request fails too
     pub persist: bool,
+    /// follow-ups go through the server object of request 1 (single-request rounds)
+    pub follow_same: bool,
+    /// lock contention (LD_PRELOAD shim): the next n attempts to take the SQLite write lock are refused
+    pub lockbusy: Option<i64>,
 }
 
 pub struct RoundResult {
@@ -359,8 +410,17 @@ pub fn run_round(spec: &RoundSpec, policy: Policy, faults: Vec<(usize, usize, De
     }
     let outs: Arc<Mutex<HashMap<usize, Out>>> = Arc::new(Mutex::new(HashMap::new()));
     let mut handles: HashMap<usize, std::thread::JoinHandle<()>> = HashMap::new();
+    let proxies: std::cell::RefCell<HashMap<usize, ProxyDriver>> = std::cell::RefCell::new(HashMap::new());
     let start_thread = |rid: usize, handles: &mut HashMap<usize, std::thread::JoinHandle<()>>| {
         let q = spec.reqs[rid - 1].clone();
+        let serve: Option<(std::sync::mpsc::Receiver<Cmd>, std::sync::mpsc::Sender<Reply>)> = if spec.follow_same && rid == 1 && !spec.follow.is_empty() {
+            let (ctx, crx) = std::sync::mpsc::channel::<Cmd>();
+            let (rtx, rrx) = std::sync::mpsc::channel::<Reply>();
+            proxies.borrow_mut().insert(rid, ProxyDriver { tx: ctx, rx: rrx, lvl: if q["lvl"] == "lib" { "lib" } else { "http" } });
+            Some((crx, rtx))
+        } else {
+            None
+        };
         let ctl2 = ctl.clone();
         let outs2 = outs.clone();
         let arg = args[rid - 1];
@@ -381,8 +441,8 @@ pub fn run_round(spec: &RoundSpec, policy: Policy, faults: Vec<(usize, usize, De
             .spawn(move || {
                 RID.with(|r| r.set(rid));
                 let gate = Arc::new(GateStorage { ctl: ctl2.clone(), inner: storage });
+                let mut d = make_driver(&driver_kind, days, versions, None, Shared(gate));
                 let res = std::panic::catch_unwind(std::panic::AssertUnwindSafe(|| {
-                    let mut d = make_driver(&driver_kind, days, versions, None, Shared(gate));
                     match q["op"].as_str().unwrap_or("") {
                         "AddVersion" => d.add_version(client, arg, body).0,
                         "GetChildVersion" => d.get_child_version(client, arg).0,
@@ -391,6 +451,7 @@ pub fn run_round(spec: &RoundSpec, policy: Policy, faults: Vec<(usize, usize, De
                         o => Out::Error { msg: format!("unknown op {o}") },
                     }
                 }));
+                let panicked = res.is_err();
                 let out = match res {
                     Ok(o) => o,
                     Err(_) => Out::Panic { msg: "panic in request thread".into() },
@@ -398,6 +459,21 @@ pub fn run_round(spec: &RoundSpec, policy: Policy, faults: Vec<(usize, usize, De
                 outs2.lock().unwrap().insert(rid, out);
                 RID.with(|r| r.set(0));
                 ctl2.mark_done(rid);
+                // keep serving: follow-up requests through this very server object (no gates, no faults: RID is 0)
+                if let (Some((crx, rtx)), false) = (serve, panicked) {
+                    while let Ok((op, c, a, b)) = crx.recv() {
+                        let r = std::panic::catch_unwind(std::panic::AssertUnwindSafe(|| match op.as_str() {
+                            "AddVersion" => d.add_version(c, a, b),
+                            "GetChildVersion" => d.get_child_version(c, a),
+                            "AddSnapshot" => d.add_snapshot(c, a, b),
+                            _ => d.get_snapshot(c),
+                        }));
+                        let reply = r.unwrap_or((Out::Panic { msg: "panic in follow-up".into() }, None));
+                        if rtx.send(reply).is_err() {
+                            break;
+                        }
+                    }
+                }
             })
             .expect("spawn");
         handles.insert(rid, h);
@@ -410,7 +486,10 @@ pub fn run_round(spec: &RoundSpec, policy: Policy, faults: Vec<(usize, usize, De
         if let Some((at, errno, persist, after)) = spec.iofault {
             crate::shimapi::io_fail(at, errno, persist, after);
         }
-    } else if spec.iofault.is_some() {
+        if let Some(n) = spec.lockbusy {
+            crate::shimapi::lock_busy(n);
+        }
+    } else if spec.iofault.is_some() || spec.lockbusy.is_some() {
         anyhow::bail!("I/O fault requested but the shim is not loaded");
     }
     let grace = Duration::from_millis(if spec.backend == "sqlite" { 25 } else { 8 });
@@ -564,11 +643,6 @@ pub fn run_round(spec: &RoundSpec, policy: Policy, faults: Vec<(usize, usize, De
             timeouts.insert(rid);
         }
     }
-    for (rid, h) in handles.drain() {
-        if !timeouts.contains(&rid) || ctl.status(rid) == Status::Done {
-            let _ = h.join();
-        }
-    }
     // --- observation
     let log = ctl.log();
     let outs = outs.lock().unwrap().clone();
@@ -590,13 +664,26 @@ pub fn run_round(spec: &RoundSpec, policy: Policy, faults: Vec<(usize, usize, De
         resps.push(rj);
     }
     let iocount = if crate::shimapi::present() { crate::shimapi::io_count() - io_before } else { -1 };
+    let mut lock_seen = -1;
     if crate::shimapi::present() {
         crate::shimapi::io_reset(); // disarm before observing
+        if spec.lockbusy.is_some() {
+            lock_seen = crate::shimapi::lock_busy_seen();
+            crate::shimapi::lock_busy(0);
+        }
     }
     let fin = seedr.dump();
     let final_state = Runner::st_json(&fin);
     // follow-up requests: served normally?
     let mut follow: Vec<Value> = vec![];
+    let same = proxies.borrow_mut().remove(&1).filter(|_| ctl.status(1) == Status::Done);
+    let same_server = same.is_some();
+    let own_driver = seedr.driver.take();
+    if let Some(p) = same {
+        seedr.driver = Some(Box::new(p));
+    } else {
+        seedr.driver = own_driver;
+    }
     for (i, f) in spec.follow.iter().enumerate() {
         let mut f2 = f.clone();
         if f2.get("c").is_none() {
@@ -605,8 +692,15 @@ pub fn run_round(spec: &RoundSpec, policy: Policy, faults: Vec<(usize, usize, De
         let (ev, _) = seedr.step(&f2, 1000 + i);
         let c = (f2["c"].as_i64().unwrap_or(1) - 1) as usize;
         let vid = if ev["resp"]["kind"] == "ok" { ev["resp"]["vid"].clone() } else { json!(0) };
-        follow.push(json!({"req": {"op": ev["req"]["op"], "c": 1, "arg": ev["req"]["arg"], "lvl": "lib", "tok": ev["req"]["tok"], "vid": vid},
+        follow.push(json!({"req": {"op": ev["req"]["op"], "c": 1, "arg": ev["req"]["arg"], "lvl": ev["req"]["lvl"], "tok": ev["req"]["tok"], "vid": vid},
                            "resp": ev["resp"], "st": ev["st"][c]}));
+    }
+    seedr.driver = None; // hangs up the proxy: the request thread ends
+    proxies.borrow_mut().clear();
+    for (rid, h) in handles.drain() {
+        if !timeouts.contains(&rid) || ctl.status(rid) == Status::Done {
+            let _ = h.join();
+        }
     }
     // real-time order: r DONE before s START
     let pos = |rid: usize, tag: &str| log.iter().find(|e| e.1 == rid && e.2 == tag).map(|e| e.0);
@@ -634,8 +728,9 @@ pub fn run_round(spec: &RoundSpec, policy: Policy, faults: Vec<(usize, usize, De
         "timeouts": timeouts.iter().collect::<Vec<_>>(),
         "iocount": iocount,
         "iofault": spec.iofault.map(|f| json!({"at": f.0, "errno": f.1, "persist": f.2, "after": f.3})).unwrap_or(json!({"at": 0, "errno": 0, "persist": false, "after": false})),
-        "faulted": !faults.is_empty() || spec.iofault.is_some(),
-        "follow": follow,
+        "faulted": !faults.is_empty() || spec.iofault.is_some() || spec.lockbusy.is_some(),
+        "lockbusy": {"n": spec.lockbusy.unwrap_or(0), "refused": lock_seen},
+        "follow": follow, "follow_same_server": same_server,
     });
     seedr.cleanup();
     Ok(RoundResult { event, decisions })
@@ -655,6 +750,8 @@ fn spec_of(j: &Value) -> RoundSpec {
         }),
         follow: j["follow"].as_array().cloned().unwrap_or_default(),
         persist: false,
+        follow_same: j["follow_same"].as_bool().unwrap_or(true),
+        lockbusy: None,
     }
 }
 
@@ -689,7 +786,7 @@ pub fn run(plan_path: &str, out_path: &str) -> anyhow::Result<i32> {
         let spec = spec_of(&j);
         let faults = parse_faults(&j);
         let jid = j["id"].clone();
-        let mut emit = |res: RoundResult, extra: Value, w: &mut dyn Write| -> anyhow::Result<()> {
+        let emit = |res: RoundResult, extra: Value, w: &mut dyn Write| -> anyhow::Result<()> {
             let mut ev = res.event;
             ev["job"] = jid.clone();
             ev["mode"] = j["mode"].clone();
@@ -766,6 +863,47 @@ pub fn run(plan_path: &str, out_path: &str) -> anyhow::Result<i32> {
                 }
                 rounds += n as i64;
                 per_job.push(json!({"id": j["id"], "rounds": n, "gates": ngates, "iocalls": nio}));
+            }
+            "lock" => {
+                // C05: the write lock is held by somebody else for a while - for k lock attempts, k around every multiple of
+                // what ONE begin of a transaction waits out before it gives up (measured first): whatever retry loop the
+                // storage has, the request either runs after the contention or fails with nothing done
+                let mut spec = spec;
+                spec.lockbusy = Some(1_000_000);
+                let probe = run_round(&spec, Policy::Prefix(&[]), vec![], run_id, &scratch)?;
+                let k1 = probe.event["lockbusy"]["refused"].as_i64().unwrap_or(0);
+                emit(probe, json!({"sweep": "lock", "n": 1_000_000}), &mut w)?;
+                run_id += 1;
+                let mut n = 1usize;
+                // the probe request may have begun several transactions: use the smallest plausible unit too
+                let mut units: Vec<i64> = vec![k1];
+                for d in 2..=4 {
+                    if k1 % d == 0 {
+                        units.push(k1 / d);
+                    }
+                }
+                let mut ks: Vec<i64> = vec![1, 2, 3, 7];
+                for u in units {
+                    if u < 2 {
+                        continue;
+                    }
+                    for m in 1..=6 {
+                        for dlt in [-1i64, 0, 1, 2] {
+                            ks.push(m * u + dlt);
+                        }
+                    }
+                }
+                ks.sort();
+                ks.dedup();
+                for k in ks.into_iter().filter(|k| *k > 0) {
+                    spec.lockbusy = Some(k);
+                    let r = run_round(&spec, Policy::Prefix(&[]), vec![], run_id, &scratch)?;
+                    emit(r, json!({"sweep": "lock", "n": k, "unit": k1}), &mut w)?;
+                    run_id += 1;
+                    n += 1;
+                }
+                rounds += n as i64;
+                per_job.push(json!({"id": j["id"], "rounds": n, "lock_attempts_per_request": k1}));
             }
             "dfs" => {
                 // bounded-exhaustive stateless exploration at gate granularity
